@@ -165,3 +165,19 @@ Theorem crossing_candidates_sorted_union : forall (idx : index) visited sid,
             exists pos cl, In pos visited /\ find_by_shape (snd (nth_cell idx pos)) sid = Some cl /\ In e (cl_edges cl).
 Proof. exact crossing_candidates_spec. Qed.
 Print Assumptions crossing_candidates_sorted_union.
+
+(** H-CLIP in the parity form used above follows from its per-edge form together with the
+    structural part of [index_ok]: if no edge that a cell does not list is crossed by
+    centre -> p, the parity over all edges is the parity over the listed edges. *)
+Theorem clip_parity_from_edges :
+  forall (point : Type) (crossing_sign : point -> point -> point -> point -> crossing)
+         (vertex_crossing : point -> point -> point -> point -> bool)
+         (s : qshape point) (a b : point) (ids : list Z),
+  increasing ids ->
+  (forall e, In e ids -> 0 <= e < lenZ (q_edges s)) ->
+  (forall k ex, ~ In (Z.of_nat k) ids -> nth_error (q_edges s) k = Some ex ->
+                edge_or_vertex_crossing point crossing_sign vertex_crossing a b (fst ex) (snd ex) = false) ->
+  parity_crossings point crossing_sign vertex_crossing a b (q_edges s) =
+  parity_crossings point crossing_sign vertex_crossing a b (edges_of point s ids).
+Proof. exact Proofs.C06_Index.clip_parity_from_edges. Qed.
+Print Assumptions clip_parity_from_edges.
